@@ -491,7 +491,7 @@ pub struct GraphPlan { pub exhaustive: Vec<(usize, usize)>, pub random: u64, pub
 pub fn plan(tier: &str) -> GraphPlan {
   match tier {
     "thorough" => GraphPlan { exhaustive: vec![(3, 1), (3, 2), (3, 3), (3, 4), (3, 5), (4, 1), (4, 2), (4, 3), (4, 4)], random: 400_000, max_nodes: 14, len_lo: 60, len_hi: 300 },
-    "miri" => GraphPlan { exhaustive: vec![(3, 2)], random: 2, max_nodes: 8, len_lo: 100, len_hi: 100 },
+    "miri" => GraphPlan { exhaustive: vec![], random: 1, max_nodes: 7, len_lo: 60, len_hi: 60 },
     _ => GraphPlan { exhaustive: vec![(3, 1), (3, 2), (3, 3), (3, 4), (4, 1), (4, 2), (4, 3)], random: 40_000, max_nodes: 14, len_lo: 60, len_hi: 200 },
   }
 }
